@@ -36,6 +36,7 @@ type FileExpect struct {
 	MaxFailRate   int               `json:"max_failures_rate"`
 	IgnoreDropped bool              `json:"ignore_dropped"`
 	ParamNames    []string          `json:"param_names"`
+	SlowBodies    bool              `json:"slow_bodies,omitempty"` // iterations outlive their stage: per-stage counts are not judged
 }
 
 // InputExpect describes a C14 input and what it spells.
@@ -462,6 +463,11 @@ func (h h6) Gen(prop, tier string, r *simrt.Rng) (any, simrt.Config) {
 		SelectShuffle: simrt.Pick(r, 0.0, 0.3)}
 	if prop == "C15" {
 		h.genFileRun(c, r, tier)
+		if r.Intn(6) == 0 {
+			// iterations that are still running when the next stage (and the one after) has taken over
+			c.Prog.Iter = []IterPlan{{SleepNs: int64(simrt.Pick(r, 150, 450, 1300))*ms + 17}, {SleepNs: 3*ms + 5}}
+			c.File.SlowBodies = true
+		}
 		if r.Intn(4) == 0 {
 			c.Driver = "cli" // the limits reach the run through the command's option mapping
 			c.Verbose, c.Interactive = true, false
